@@ -10,6 +10,7 @@ mod http;
 mod d_serve;
 mod d_conn;
 mod d_cors;
+mod d_wire;
 
 fn main() {
     let args: Vec<String> = std::env::args().collect();
@@ -26,6 +27,8 @@ fn main() {
         "serve" => d_serve::run(&opts),
         "conn" => d_conn::run(&opts),
         "cors" => d_cors::run(&opts),
+        "wire-history" => d_wire::history(&opts),
+        "wire-conc" => d_wire::conc(&opts),
         "conn-child" => d_conn::child(&opts),
         "random-worlds" => d_serve::random_worlds(&opts),
         other => {
